@@ -144,6 +144,14 @@ MISSED_FIRST.update({
  "C14-K": "no document spelled a boolean as 1 / 0; the token mutator now also replaces a text by another spelling of the same value (1/0/True, sign, leading zero, exponent, blanks, NBSP) (strengthened before the first run)",
  "C15-K": "no check used a deserializer with a custom EntityResolver; C15 now rewrites base documents in which a piece of a text is a reference to a DOCTYPE-declared entity and judges them through Deserializer::from_str_with_resolver / with_resolver (strengthened before the first run)",
 })
+MISSED_FIRST.update({
+ "C03-N": "no check read through the synchronous Read side of Reader::stream(); C03 mode reader.sync_with_stream_reads added: read into buffers larger than what is left, read_exact that cannot be satisfied, read_to_end, between events; the position must advance by exactly the bytes obtained and never pass the input length (predicted from the agent's summary, strengthened before the first run)",
+ "C04-N": "no check looked at stream() between the two events of an expanded empty element; C04 histories (and C16's configured runs) now look at stream() without reading after some of their calls (strengthened before the first run)",
+ "C05-N": "the scope was compared with the model only at start, empty and end events; it is now also compared while the reader stands on a text, comment, PI, ... or Eof (strengthened before the first run)",
+ "C12-N": "no skipped element had content that begins with U+FEFF; pool documents added (strengthened before the first run)",
+ "C16-M": "no text ended in a form feed; form feed, vertical tab, NEL and U+2028 are now text bits of the shared document grammar (strengthened before the first run)",
+ "C02-M": "no text began with a form feed under trim_text_start on a buffered source; same grammar extension as C16-M (strengthened before the first run)",
+})
 NOT_OWN.update({
  "C06-K": "the change only affects a `char` list item that is a blank; list items with whitespace are outside C06's round-trip domain (documented: list items never contain whitespace), so C06 does not generate them. C13, whose statement (no payload can change the structure; the payload found at a list-item slot is the one put there) it breaks, reports it",
 })
